@@ -117,6 +117,17 @@ impl Incremental {
                 dependents.extend(entry.dependents.iter().map(PathBuf::from));
             }
         }
+        // A file of the previous build that is gone (deleted, or renamed: the
+        // new name is a miss of its own) changes what its dependents see just
+        // like an edit does.
+        let current: HashSet<&std::path::Path> = paths.iter().map(|x| x.src.as_path()).collect();
+        for src in store.sources() {
+            if !current.contains(std::path::Path::new(src))
+                && let Some(entry) = store.entry(src)
+            {
+                dependents.extend(entry.dependents.iter().map(PathBuf::from));
+            }
+        }
         miss.extend(dependents);
 
         debug!(
